@@ -1,6 +1,6 @@
 // REPLAY for property C08, harness k_arm_raw_memcpy (unit K-arms, engine kani)
 // Failed obligations:
-//   OBL:arms.stored_block_complete_is_done_even_when_window_full [C03 C08]  at miniz_oxide/src/inflate/core.rs:3512:17 in function inflate::core::verif_inflate_core::k_arm_raw_memcpy
+//   OBL:arms.stored_block_complete_is_done_even_when_window_full [C03 C08]  at miniz_oxide/src/inflate/core.rs:3515:17 in function inflate::core::verif_inflate_core::k_arm_raw_memcpy
 // no-failing-input-found: the verifier reported the failed obligation without a concrete model.
 // Verifier output (tail):
 //   	 - Description: "dereference failure: deallocated dynamic object"
@@ -55,10 +55,10 @@
 //   SUMMARY:
 //    ** 1 of 212 failed (4 unreachable)
 //   Failed Checks: "OBL:arms.stored_block_complete_is_done_even_when_window_full [C03 C08]"
-//    File: "miniz_oxide/src/inflate/core.rs", line 3512, in inflate::core::verif_inflate_core::k_arm_raw_memcpy
+//    File: "miniz_oxide/src/inflate/core.rs", line 3515, in inflate::core::verif_inflate_core::k_arm_raw_memcpy
 //   
 //   VERIFICATION:- FAILED
-//   Verification Time: 16.33313s
+//   Verification Time: 19.038467s
 //   
 //   Manual Harness Summary:
 //   Verification failed for - inflate::core::verif_inflate_core::k_arm_raw_memcpy
